@@ -95,36 +95,9 @@ def quoting_clauses(ctx, r2, F):
     return sc
 
 
-def run(ctx):
-    F = ctx.facts
-    ctx.explanation = ("ordering of sync_parameters before any client byte is sent to a freshly borrowed server, direct-flow taint of parameter values into the quoted SQL literal "
-                       "(format_args template decoded from the compiled constant), ParameterStatus handling updating both maps, startup merge, and agreement of the tracked set")
-    ctx.assumptions = ["which values PostgreSQL reports back in ParameterStatus is not modelled", "an intervening call between the map entry and the SQL literal is taken to be an escaper (its correctness is not evaluated)"]
-    # ---------------- R1
-    r1 = ctx.rule("C12-R1", "after a checkout, Server::sync_parameters(client's parameters) runs before anything of the client is sent to that server", floor=2)
-    h = ctx.body(H, r1)
-    if h:
-        syncs = h.calls(SYNC)
-        claim = h.calls("pgcat::server::Server::claim")
-        gets = h.calls("pgcat::pool::ConnectionPool::get")
-        if not syncs or not claim or not gets:
-            r1.missing("sync_parameters / claim / get in handle")
-        else:
-            io = [c.block for c in h.calls(*SERVER_IO)]
-            rm = [c.block for c in h.calls("pgcat::messages::read_message")]
-            wit = h.uncrossed_path([gets[0].block], io, blocks=[syncs[0].block])
-            r1.check(wit is None, "sync-before-io", "every path from the checkout to a server send/receive passes sync_parameters", "client traffic can reach a freshly borrowed server before its parameters are synchronised", "", wit and h.describe_path(wit))
-            fl = {p for o in origins(h, syncs[0].args[1]) if o.kind in ("place", "param") for p in o.proj if p.startswith(".")}
-            r1.check(".server_parameters" in fl, "sync-arg", "sync_parameters receives the client's server_parameters", "sync_parameters does not receive Client.server_parameters (%s)" % sorted(fl))
-            recv_ = {o.call.name for o in origins(h, syncs[0].args[0]) if o.kind == "call"}
-            r1.check("pgcat::pool::ConnectionPool::get" in recv_, "sync-receiver", "sync_parameters is called on the server just checked out", "sync_parameters receiver does not derive from the checkout")
-            # its error is propagated (a failed sync must not be followed by client traffic)
-            contE, brkE, _ = discr_edges(h, r"ControlFlow<", "Continue", origin_pred=lambda o: o.kind == "call" and o.call.name == SYNC)
-            wit = h.uncrossed_path([syncs[0].block], io, edges=contE)
-            r1.check(bool(contE) and wit is None, "sync-ok-before-io", "client traffic follows only a successful sync", "client traffic can follow a failed sync_parameters")
-    # ---------------- R2
-    # "successful" means the server took the values: Server::query returns Ok whatever the server answered, and the SETs are one
-    # multi-statement query (one implicit transaction: a refused value rolls the others back, the connection keeps the previous client's)
+def sync_result_clauses(ctx, r1, F):
+    """Server::sync_parameters tells its caller the truth about what the server answered to pgcat's own SETs (shared by C12-R1: the client's statements
+    run under the client's values, and C02: the session the previous client left is not handed on under a new name)"""
     scb = ctx.body(SYNCC, r1)
     rvb = F.body("pgcat::server::Server::recv::{closure#0}")
     if scb and rvb:
@@ -164,6 +137,39 @@ def run(ctx):
             r1.check(bool(flags) and bool(okE) and w_ is None, "sync-result-verified", "sync_parameters returns after its query only where the server sent no ErrorResponse (Server.%s), or gives the connection up" % sorted(flags),
                      "sync_parameters reports success whatever the server answered: a tracked parameter value the server refuses (a client that announced DateStyle=bogus) rolls the whole multi-statement SET back, "
                      "and the client's statements run under the previous client's application_name / TimeZone / ...", qc[0].where(), w_ and scb.describe_path(w_))
+
+
+def run(ctx):
+    F = ctx.facts
+    ctx.explanation = ("ordering of sync_parameters before any client byte is sent to a freshly borrowed server, direct-flow taint of parameter values into the quoted SQL literal "
+                       "(format_args template decoded from the compiled constant), ParameterStatus handling updating both maps, startup merge, and agreement of the tracked set")
+    ctx.assumptions = ["which values PostgreSQL reports back in ParameterStatus is not modelled", "an intervening call between the map entry and the SQL literal is taken to be an escaper (its correctness is not evaluated)"]
+    # ---------------- R1
+    r1 = ctx.rule("C12-R1", "after a checkout, Server::sync_parameters(client's parameters) runs before anything of the client is sent to that server", floor=2)
+    h = ctx.body(H, r1)
+    if h:
+        syncs = h.calls(SYNC)
+        claim = h.calls("pgcat::server::Server::claim")
+        gets = h.calls("pgcat::pool::ConnectionPool::get")
+        if not syncs or not claim or not gets:
+            r1.missing("sync_parameters / claim / get in handle")
+        else:
+            io = [c.block for c in h.calls(*SERVER_IO)]
+            rm = [c.block for c in h.calls("pgcat::messages::read_message")]
+            wit = h.uncrossed_path([gets[0].block], io, blocks=[syncs[0].block])
+            r1.check(wit is None, "sync-before-io", "every path from the checkout to a server send/receive passes sync_parameters", "client traffic can reach a freshly borrowed server before its parameters are synchronised", "", wit and h.describe_path(wit))
+            fl = {p for o in origins(h, syncs[0].args[1]) if o.kind in ("place", "param") for p in o.proj if p.startswith(".")}
+            r1.check(".server_parameters" in fl, "sync-arg", "sync_parameters receives the client's server_parameters", "sync_parameters does not receive Client.server_parameters (%s)" % sorted(fl))
+            recv_ = {o.call.name for o in origins(h, syncs[0].args[0]) if o.kind == "call"}
+            r1.check("pgcat::pool::ConnectionPool::get" in recv_, "sync-receiver", "sync_parameters is called on the server just checked out", "sync_parameters receiver does not derive from the checkout")
+            # its error is propagated (a failed sync must not be followed by client traffic)
+            contE, brkE, _ = discr_edges(h, r"ControlFlow<", "Continue", origin_pred=lambda o: o.kind == "call" and o.call.name == SYNC)
+            wit = h.uncrossed_path([syncs[0].block], io, edges=contE)
+            r1.check(bool(contE) and wit is None, "sync-ok-before-io", "client traffic follows only a successful sync", "client traffic can follow a failed sync_parameters")
+    # ---------------- R2
+    # "successful" means the server took the values: Server::query returns Ok whatever the server answered, and the SETs are one
+    # multi-statement query (one implicit transaction: a refused value rolls the others back, the connection keeps the previous client's)
+    sync_result_clauses(ctx, r1, F)
 
     r2 = ctx.rule("C12-R2", "in sync_parameters a parameter value is not interpolated raw into a quoted SQL literal", floor=2)
     sc = quoting_clauses(ctx, r2, F)
@@ -240,6 +246,38 @@ def run(ctx):
                 if b_ is s:
                     origins(s, st["rv"]["ops"][st["rv"]["fields"].index("server_parameters")], visited=v2)
             r4.check(bool({l for l in v1 & v2 if s.varnames.get(l)}), "kept", "the Client keeps the merged map", "the Client is built with a different parameter map than the one sent to it")
+    # ... and the pool's map is the servers' own: ConnectionPool::validate fills it from what a server reported when its connection was opened - a record no client's
+    # SET ever touches - not from the connection's live record, which follows the clients (a pool rebuilt by a reload is used, unvalidated, by the clients connected
+    # before it; the next new client's validate() finds a used connection). And nothing sets `validated` back to false (D79)
+    vt = [b_ for n_, b_ in F.bodies.items() if n_.startswith("pgcat::pool::ConnectionPool::validate::{closure#0}")]
+    tmpl_ok, tmpl_why = False, "the store into original_server_parameters was not found in ConnectionPool::validate"
+    for b_ in vt:
+        for blk, i, st in b_.assigns():
+            # `*guard = server_parameters` : the guard comes from original_server_parameters.write()
+            lhs_guard = st["lhs"]["p"] == ["*"] and b_.locals[st["lhs"]["l"]]["ty"] == "&mut pgcat::server::ServerParameters" and bool(b_.calls("re:RwLock(<.*>)?::write$"))
+            if not lhs_guard or st["rv"]["k"] != "use":
+                continue
+            srcs = {o.call.name for o in origins(b_, st["rv"]["op"], taint=True) if o.kind == "call" and o.call.name.startswith("pgcat::server::Server::")}
+            getters = sorted(srcs)
+            if not getters:
+                continue
+            tmpl_ok = True
+            for g in getters:
+                gb = F.body(g)
+                flds = {p_[1:] for o in (origins(gb, 0, taint=True) if gb is not None else []) if o.kind in ("place", "param") for p_ in o.proj if isinstance(p_, str) and p_.startswith(".") and not p_[1:].isdigit()}
+                # the field(s) the getter returns must have no writer outside the construction of Server
+                for f_ in flds:
+                    writers = sorted({w_.name for w_, blk2, st2 in F.field_writes(lambda ff, bb, ss, f_=f_: ff == f_) if "pgcat::server::" in w_.name})
+                    mut_calls = sorted({c.body.name for c in F.all_calls("pgcat::server::ServerParameters::set_param", "pgcat::server::ServerParameters::set_from_hashmap")
+                                        if c.body.name.startswith("pgcat::server::Server::") and any(("." + f_) in o.proj for o in origins(c.body, c.args[0]) if o.kind in ("place", "param"))})
+                    if writers or mut_calls:
+                        tmpl_ok = False
+                        tmpl_why = "ConnectionPool::validate takes the pool's template from Server.%s (%s), which %s update(s) with what clients set on the connection" % (f_, g.split("::")[-1], (writers + mut_calls)[:2])
+    r4.check(tmpl_ok, "template-from-startup-record", "the pool's parameter template is what a server reported when its connection was opened (a field nothing updates afterwards)",
+             tmpl_why + ": validate() on a connection that has served a client makes that client's TimeZone / DateStyle / application_name the defaults every later client is told and runs under")
+    vfalse = sorted({c.body.name for c in F.all_calls("re:^core::sync::atomic::AtomicBool::store$") if len(c.args) > 1 and const_int(c.args[1]) == 0
+                     and any(".validated" in o.proj for o in origins(c.body, c.args[0], taint=True) if o.kind in ("place", "param"))})
+    r4.check(not vfalse, "validated-never-reset", "nothing stores false into ConnectionPool.validated", "ConnectionPool.validated is set back to false in %s: the next login re-runs validate() on whatever connection the pool hands out - one a client has used" % vfalse)
     # ---------------- R5
     r5 = ctx.rule("C12-R5", "the tracked set, the defaults and the property's five parameters agree", floor=2)
     tp = [b for n, b in F.bodies.items() if n.startswith("pgcat::server::TRACKED_PARAMETERS")]
